@@ -1,19 +1,25 @@
 package main
 
 // C15 additions to the single-node rig (injected next to harness/rig/*.go by
-// checks/c15.py): a step that sends a request body given as raw bytes, so that
-// bodies that are not valid UTF-8 / not valid JSON can be posted. Registered in
-// rigExtraSteps, nothing of the rig itself is changed.
+// checks/c15.py). Registered in rigExtraSteps; nothing of the rig is changed.
 //
 //   {"op": "raw", "session": alias, "method": "POST"|"DELETE", "data": base64(body)}
+//       sends a request body given as raw bytes (bodies that are not valid
+//       UTF-8 / not valid JSON). POST goes to /robustirc/v1/<sid>/message,
+//       DELETE to /robustirc/v1/<sid>; X-Session-Auth is the session's secret.
 //
-// POST goes to /robustirc/v1/<sid>/message, DELETE to /robustirc/v1/<sid>;
-// X-Session-Auth is the session's secret (or the `auth` variant).
+//   {"op": "drain", "session": alias, "ms": deadline, "bg": name?}
+//       posts `PING :sentinel` for the session, then reads the session's
+//       stream (a new GET .../messages?lastseen=0.0, or the background GET
+//       `bg`) until a line of the sentinel request arrived, the stream ended
+//       or the deadline passed. Result: lines as for `get`,
+//       extra.sentinel = raft index of the sentinel, extra.reached.
 
 import (
 	"bytes"
 	"context"
 	"encoding/base64"
+	"time"
 )
 
 func init() {
@@ -33,5 +39,65 @@ func init() {
 		req := c.newRequest(context.Background(), st, method, path, bytes.NewReader(body), "correct", "none")
 		req.Header.Set("Content-Type", "application/json")
 		c.do(req, r)
+	}
+
+	rigExtraSteps["drain"] = func(c *rigChild, st rigStep, r *rigResult) {
+		rr := &rigResult{}
+		c.step(rigStep{Op: "post", Session: st.Session, Data: "PING :sentinel"}, rr)
+		if rr.Err != "" || rr.Status != 200 {
+			r.Status = rr.Status
+			r.Err = "drain: sentinel refused: " + rr.Err + " " + rr.Body
+			return
+		}
+		want := int64(node.LastIndex())
+		var g *rigBgGet
+		if st.Bg != "" {
+			var ok bool
+			if g, ok = c.bg[st.Bg]; !ok {
+				panic("drain: no background get " + st.Bg)
+			}
+			delete(c.bg, st.Bg)
+		} else {
+			g = c.startGet(rigStep{Session: st.Session, Lastseen: "0.0"})
+		}
+		ms := st.Ms
+		if ms <= 0 {
+			ms = 20000
+		}
+		deadline := time.Now().Add(time.Duration(ms) * time.Millisecond)
+		reached := false
+		for !reached && time.Now().Before(deadline) {
+			g.mu.Lock()
+			if n := len(g.lines); n > 0 && g.lines[n-1].Id >= want {
+				reached = true
+			}
+			g.mu.Unlock()
+			if reached {
+				break
+			}
+			select {
+			case <-g.done:
+				deadline = time.Now()
+			case <-time.After(time.Millisecond):
+			}
+		}
+		// the lines of one request are written as one batch: give the tail a moment
+		if reached {
+			time.Sleep(2 * time.Millisecond)
+		}
+		g.wait(1, 0, r)
+		g.cancel()
+		select {
+		case <-g.done:
+		case <-time.After(2 * time.Second):
+		}
+		g.mu.Lock()
+		r.Lines = append([]rigLine(nil), g.lines...)
+		g.mu.Unlock()
+		if r.Extra == nil {
+			r.Extra = map[string]interface{}{}
+		}
+		r.Extra["sentinel"] = want
+		r.Extra["reached"] = reached
 	}
 }
